@@ -1331,3 +1331,49 @@ def r11_shared_base_samples(check, prog):
                   'the prior object: (u - u).sample(1000) spans [-1.9, 2.0] and (g * g) '
                   'is negative half of the time, while the guesses are 0 and g**2 and '
                   'the parameter map ties the two occurrences')
+    # "also across nesting levels": a table of draws keyed by id(prior) that stays
+    # private to one call is empty again inside every operand that is itself a
+    # derived prior -- (x*2 - x) draws x twice.  The table has to reach the nested
+    # level: handed to a call (bp.sample(size, memo), a helper), or walked by a local
+    # function that descends into an operand's own base_prior.
+    import ast as _ast
+    tables = set()
+    for n in _ast.walk(fd):
+        if isinstance(n, _ast.Subscript) and isinstance(n.value, _ast.Name) and \
+                isinstance(n.slice, _ast.Call) and isinstance(n.slice.func, _ast.Name) \
+                and n.slice.func.id == 'id':
+            tables.add(n.value.id)
+        if isinstance(n, _ast.Compare) and len(n.ops) == 1 and \
+                isinstance(n.ops[0], (_ast.In, _ast.NotIn)) and \
+                isinstance(n.comparators[0], _ast.Name) and \
+                isinstance(n.left, _ast.Call) and isinstance(n.left.func, _ast.Name) \
+                and n.left.func.id == 'id':
+            tables.add(n.comparators[0].id)
+    if tables:
+        handed = False
+        for n in _ast.walk(fd):
+            if isinstance(n, _ast.Call):
+                fname = n.func.id if isinstance(n.func, _ast.Name) else None
+                if fname in ('id', 'len', 'isinstance', 'print', 'dict', 'list'):
+                    continue
+                args = list(n.args) + [k.value for k in n.keywords]
+                if any(isinstance(a, _ast.Name) and a.id in tables for a in args):
+                    handed = True
+        selfname = fd.args.args[0].arg
+        for n in _ast.walk(fd):
+            if n is not fd and isinstance(n, (_ast.FunctionDef, _ast.Lambda)):
+                uses = any(isinstance(x, _ast.Name) and x.id in tables
+                           for x in _ast.walk(n))
+                descends = any(isinstance(x, _ast.Attribute) and x.attr == 'base_prior'
+                               and not (isinstance(x.value, _ast.Name) and
+                                        x.value.id == selfname) for x in _ast.walk(n))
+                if uses and descends:
+                    handed = True
+        check.require(handed, 'R11-draws-shared-across-levels', 'TransformedPrior.sample',
+                      'the table of draws made so far reaches operands that are derived '
+                      'priors themselves', loc,
+                      fail_detail='the table %s keyed by id(prior) is never handed to a '
+                      'call nor walked into an operand\'s own base_prior: a derived '
+                      'operand starts from an empty table, so for x = Uniform(0, 1) '
+                      '(x*2 - x).sample(n) draws x twice and spans [-1, 2] while its '
+                      'guess is x.guess' % sorted(tables))
